@@ -301,7 +301,7 @@ def run_cases(pid, header, check_fn, case_terms, shard=250, timeout=900, tag="")
             if rc != 0:
                 errors.append("shard %d: rc=%d %s" % (k, rc, out[-3000:]))
                 continue
-            flat = " ".join(out.split())
+            flat = " ".join(out.split()).replace("%nat", "")
             m = re.search(r"= \((\d+), \[(.*?)\]\) : nat \* list nat", flat)
             if not m:
                 errors.append("shard %d: cannot parse %s" % (k, flat[:500]))
@@ -354,6 +354,8 @@ class Ctx:
         self.t0 = time.time()
         self.violations = []       # list of (replay_path, text, no_input)
         self.known_hits = {}       # key -> description
+        self.violation_keys = set()
+        self.suppressed_same_key = 0
         self.known = load_known(pid)
         self.notes = []
         self.coverage = {}
@@ -383,6 +385,11 @@ class Ctx:
         for (_p, w, _n) in self.violations:
             if w == what:
                 return True
+        if key is not None:
+            if key in self.violation_keys:
+                self.suppressed_same_key += 1
+                return True
+            self.violation_keys.add(key)
         path = self.replay_path(what + json.dumps(replay_obj, sort_keys=True, default=str)[:2000])
         with open(path, "w") as f:
             json.dump({"property": self.pid, "what": what, "key": key,
@@ -573,3 +580,43 @@ def broken_proof(ctx, search=None):
         ctx.violation("proof obligations no longer check: %s" % "; ".join(und)[:600],
                       {"undischarged": und, "notes": ctx.notes,
                        "build_log_tail": getattr(ctx, "build_log", "")}, no_input=True)
+
+
+def exc_enum(e):
+    """Map a Python exception raised by the library to the model's error enum."""
+    try:
+        from dendropy.utility import error as dperr
+        if isinstance(e, dperr.DataParseError):
+            return "ParseErr"
+    except Exception:
+        pass
+    if isinstance(e, RecursionError):
+        return "RecursionErr"
+    if isinstance(e, TimeoutError):
+        return "Hang"
+    for cls, name in ((KeyError, "KeyErr"), (IndexError, "IndexErr"), (LookupError, "LookupErr"),
+                      (AssertionError, "AssertErr"), (AttributeError, "AttrErr"), (TypeError, "TypeErr"),
+                      (ValueError, "ValueErr")):
+        if isinstance(e, cls):
+            return name
+    return "OtherErr"
+
+
+class alarm:
+    """with alarm(3): ...  raises TimeoutError inside the block after n seconds (main thread)."""
+    def __init__(self, seconds):
+        self.seconds = seconds
+
+    def _h(self, *a):
+        raise TimeoutError("alarm")
+
+    def __enter__(self):
+        import signal
+        self.old = signal.signal(signal.SIGALRM, self._h)
+        signal.setitimer(signal.ITIMER_REAL, self.seconds)
+
+    def __exit__(self, *a):
+        import signal
+        signal.setitimer(signal.ITIMER_REAL, 0)
+        signal.signal(signal.SIGALRM, self.old)
+        return False
